@@ -81,20 +81,28 @@ func c09(c *core.Check) {
 	c.Explain = "A metric keeps its label sets twice — the insertion-ordered slice LabelValues and the lookup map labelValuesMap.  This check decides, on every path of the current source, the structural conditions under which the pair behaves as one insertion-ordered map: (R1) every Metric field that can hold a LabelValue is written by both the insertion and the removal primitive, and within each primitive slice and map updates strictly alternate; (R2) every insertion is preceded by a failed lookup of the same tuple under the metric's lock, or by a removal of the same tuple; (R3) removing an absent tuple reaches `return nil` without any write, marking expiry on an absent tuple returns an error, wrong-length tuples are rejected first (shared with C08-R3); (R4) enumeration sends exactly one label set per element of the slice, built from that element's own labels and value, then closes; (R5) removal splices exactly the found element and stops; the slice is never sorted or reordered in place.  Values and timestamps inside data are not decided."
 	c.Assume = append(c.Assume, "callers hold the metric's lock as decided under C11")
 	app := c.MustFn("C09-R1", mAppend)
-	rem := c.MustFn("C09-R1", mRemove)
+	remAPI := c.MustFn("C09-R1", mRemove)
 	get := c.MustFn("C09-R2", mGetDatum)
-	if app == nil || rem == nil || get == nil {
+	if app == nil || remAPI == nil || get == nil {
 		return
 	}
+	// the removal primitive: RemoveDatum itself or the helper it delegates to
+	rem := findInClosure(remAPI, splicesLabelValues)
+	if rem == nil {
+		c.Undecided("C09-R1", mRemove+"|splice", pos(c, remAPI.Decl), "no function reachable from RemoveDatum splices the label-value slice: removal primitive not recognised")
+		return
+	}
+	c.Analysed(rem)
+	c.Extra["removal_primitive"] = rem.Key
 	keyInjective(c, "C09-R0") // a map from tuples needs distinct tuples to have distinct keys (shared with C08-R1)
 	c.Rule("C09-R1", "PAIRED: the Metric fields whose type mentions LabelValue are each written in RemoveDatum if they are written on insertion (AppendLabelValue/GetDatum); in AppendLabelValue the slice append and the map store alternate on every path; in RemoveDatum the splice and the map delete alternate")
 	if pkg := c.Prog.Pkgs["internal/metrics"]; pkg != nil {
 		st, _ := pkg.Types.Scope().Lookup("Metric").Type().Underlying().(*types.Struct)
-		insW := metricFieldWrites(app)
-		for k, v := range metricFieldWrites(get) {
+		insW := mergedFieldWrites(app)
+		for k, v := range mergedFieldWrites(get) {
 			insW[k] = append(insW[k], v...)
 		}
-		remW := metricFieldWrites(rem)
+		remW := mergedFieldWrites(remAPI)
 		for i := 0; st != nil && i < st.NumFields(); i++ {
 			fl := st.Field(i)
 			if !strings.Contains(fl.Type().String(), "metrics.LabelValue") {
@@ -226,7 +234,7 @@ func c09(c *core.Check) {
 			for _, n := range nodes {
 				in := false
 				for _, ic := range rem.EnclosingIfs(n.Pos()) {
-					if nospace(exprStr(ic.If.Cond)) == "ok" && ic.InThen {
+					if ic.InThen && isMapLookupOk(rem, ic.If.Cond, "labelValuesMap") {
 						in = true
 					}
 				}
@@ -339,10 +347,25 @@ func c10(c *core.Check) {
 	c.Explain = "Decides structural necessary conditions of C10 in Store.Gc and the metric primitives it uses: (R1) on every path the size-limit phase precedes the expiry phase; (R2) the limit phase is guarded by Limit > 0 and removes the oldest datum exactly once per datum in excess (loop from len down to Limit); (R3) the victim is chosen by an arg-min fold over all label values whose only use of the timestamps is `candidate.Before(best)` — evaluated on the three orderings the kept victim is never newer than a discarded candidate — and exactly that victim's tuple is removed; (R4) expiry removal is dominated by Expiry > 0 and by `now.Sub(last update) > Expiry` (strict) with `now` taken once before the iteration; (R5) after removing element i of the slice being scanned the index is decremented before it is advanced; (R6) everything GC can write is the metric's slice/map pair and the slice is never reordered; (R7) no range loop over the slice (or an alias of its backing array) keeps iterating after removing an element.  Wall-clock values and the data races of the unlocked reads (C11) are not decided here."
 	c.Assume = append(c.Assume, "time.Time.Before/Sub semantics")
 	gcf := c.MustFn("C10-R1", storeGc)
-	old := c.MustFn("C10-R3", mOldest)
-	if gcf == nil || old == nil {
+	oldAPI := c.MustFn("C10-R3", mOldest)
+	if gcf == nil || oldAPI == nil {
 		return
 	}
+	// the victim selection: RemoveOldestDatum itself or the helper it delegates to
+	old := findInClosure(oldAPI, func(f *core.Func) bool {
+		isLV := lvAliases(f)
+		for _, rs := range rangeStmts(f) {
+			if isLV(rs.X) {
+				return true
+			}
+		}
+		return false
+	})
+	if old == nil {
+		old = oldAPI
+	}
+	c.Analysed(old)
+	c.Extra["victim_selection"] = old.Key
 	var cb *core.Func
 	for _, lf := range gcf.Lits {
 		cb = lf
@@ -507,9 +530,9 @@ func c10(c *core.Check) {
 			}
 			// removal of best.Labels
 			okRem := false
-			for _, h := range og.CallsTo(mRemove) {
+			for _, h := range og.Calls(func(id string, call *ast.CallExpr) bool { cf := old.CalleeFunc(call); return cf != nil && rmv[cf] }) {
 				call := h.N.(*ast.CallExpr)
-				if best != "" && len(call.Args) == 1 && nospace(exprStr(call.Args[0])) == best+".Labels" && call.Ellipsis.IsValid() {
+				if best != "" && len(call.Args) == 1 && nospace(exprStr(call.Args[0])) == best+".Labels" {
 					okRem = true
 				}
 			}
@@ -553,7 +576,7 @@ func c10(c *core.Check) {
 				}
 			}
 		}
-		c.Verdict(pred && skip && call.Ellipsis.IsValid(), "C10-R4", key, pos(c, call), "Expiry>0 and now-lastUpdate > Expiry (strict)", fmt.Sprintf("the expiry removal is not guarded by `Expiry > 0` (found=%v) and `now.Sub(last update) > Expiry` strictly (found=%v): data without a delayed delete, or data exactly Expiry old, are removed — or expired data are kept", skip, pred))
+		c.Verdict(pred && skip && strings.HasSuffix(nospace(exprStr(call.Args[0])), ".Labels"), "C10-R4", key, pos(c, call), "Expiry>0 and now-lastUpdate > Expiry (strict)", fmt.Sprintf("the expiry removal is not guarded by `Expiry > 0` (found=%v) and `now.Sub(last update) > Expiry` strictly (found=%v): data without a delayed delete, or data exactly Expiry old, are removed — or expired data are kept", skip, pred))
 	}
 	{
 		gg := gcf.Graph()
@@ -800,4 +823,105 @@ func removers(c *core.Check) map[*core.Func]bool {
 		})
 		return hit
 	})
+}
+
+// metricsClosure lists root and the functions of internal/metrics it reaches
+// through statically resolved calls.
+func metricsClosure(root *core.Func) []*core.Func {
+	var out []*core.Func
+	for _, f := range closureFrom(root) {
+		if core.Rel(f.Pkg.PkgPath) == "internal/metrics" {
+			out = append(out, f)
+		}
+	}
+	return out
+}
+
+// findInClosure returns root if pred holds for it, else the first function
+// (by key) of internal/metrics reachable from root for which it holds: the
+// rules follow a public method into the unexported helper that does the work.
+func findInClosure(root *core.Func, pred func(*core.Func) bool) *core.Func {
+	if pred(root) {
+		return root
+	}
+	for _, f := range metricsClosure(root) {
+		if f != root && pred(f) {
+			return f
+		}
+	}
+	return nil
+}
+
+// splicesLabelValues reports whether f itself assigns a shortened slice to a Metric's LabelValues.
+func splicesLabelValues(f *core.Func) bool {
+	isLV := lvAliases(f)
+	hit := false
+	core.InspectNoLit(f.Body, func(n ast.Node) bool {
+		if as, ok := n.(*ast.AssignStmt); ok && len(as.Lhs) == 1 && len(as.Rhs) == 1 && isLV(as.Lhs[0]) {
+			if call, ok := core.Unparen(as.Rhs[0]).(*ast.CallExpr); ok && f.CalleeID(call) == "builtin.append" && len(call.Args) > 0 {
+				if _, isSlice := core.Unparen(call.Args[0]).(*ast.SliceExpr); isSlice {
+					hit = true
+				}
+			}
+			if _, isSlice := core.Unparen(as.Rhs[0]).(*ast.SliceExpr); isSlice {
+				hit = true
+			}
+		}
+		return !hit
+	})
+	return hit
+}
+
+// mergedFieldWrites is metricFieldWrites over root and what it reaches inside internal/metrics.
+func mergedFieldWrites(root *core.Func) map[string][]ast.Node {
+	out := map[string][]ast.Node{}
+	for _, f := range metricsClosure(root) {
+		for k, v := range metricFieldWrites(f) {
+			out[k] = append(out[k], v...)
+		}
+	}
+	return out
+}
+
+// isMapLookupOk reports whether cond is the boolean result of a comma-ok
+// lookup in the map field named field (`v, ok := x.field[k]; if ok`), or the
+// equivalent `v != nil` on the looked-up value.
+func isMapLookupOk(f *core.Func, cond ast.Expr, field string) bool {
+	info := f.Info()
+	var obj types.Object
+	switch x := core.Unparen(cond).(type) {
+	case *ast.Ident:
+		obj = identObj(info, x)
+	case *ast.BinaryExpr:
+		if x.Op == token.NEQ && isNilIdent(info, x.Y) {
+			obj = identObj(info, x.X)
+		} else if x.Op == token.NEQ && isNilIdent(info, x.X) {
+			obj = identObj(info, x.Y)
+		}
+	}
+	if obj == nil {
+		return false
+	}
+	found := false
+	ast.Inspect(f.Body, func(n ast.Node) bool {
+		as, ok := n.(*ast.AssignStmt)
+		if !ok || len(as.Rhs) != 1 {
+			return true
+		}
+		ix, ok := core.Unparen(as.Rhs[0]).(*ast.IndexExpr)
+		if !ok {
+			return true
+		}
+		sel, ok := core.Unparen(ix.X).(*ast.SelectorExpr)
+		if !ok || sel.Sel.Name != field {
+			return true
+		}
+		for _, l := range as.Lhs {
+			if identObj(info, l) == obj {
+				found = true
+			}
+		}
+		return true
+	})
+	return found
 }
